@@ -39,9 +39,19 @@ func contract_checkInitialized(m protoreflect.Message) (err error) {
 	return
 }
 
-// The reflection decoder: body not verified (protoreflect), preconditions checked at its callers.
+// The reflection decoder. Its callers must establish the protocol preconditions (C06, C07, C10).
+// Its own tag loop: an unknown field is kept exactly when DiscardUnknown is not set, by extending
+// the message's existing unknown bytes with the field's tag and value (C09); the list, map and
+// singular decoders it calls are abstracted (their reported lengths are trusted to lie within
+// their input).
 //
-// @ trusted
+// @ props C06 C07 C09 C10
+// @ mode int
+// @ nopanic
+// @ guard-errors
+// @ pure protoreflect.Message.GetUnknown
+// @ callsite m.SetUnknown: !o.DiscardUnknown && len(arg[protoreflect.RawFields](0)) == len(m.GetUnknown())+tagLen+valLen
+// @ site b = b[tagLen+valLen:]: 0 <= tagLen && 0 <= valLen && tagLen+valLen <= len(b)
 func contract_UnmarshalOptions_unmarshalMessageSlow(o UnmarshalOptions, b []byte, m protoreflect.Message) (err error) {
 	requires(o.Merge)
 	requires(o.AllowPartial)
@@ -285,6 +295,7 @@ func lemma_sizeMarshalList(o MarshalOptions, b []byte, fd protoreflect.FieldDesc
 // @ callsite mapv.NewValue: !haveVal
 func contract_UnmarshalOptions_unmarshalMap(o UnmarshalOptions, b []byte, wtyp protowire.Type, mapv protoreflect.Map, fd protoreflect.FieldDescriptor) (n int, err error) {
 	modifiesAll()
+	ensuresTrusted(imp(err == nil, 0 <= n && n <= len(b)))
 	return
 }
 
@@ -325,5 +336,21 @@ func contract_MarshalOptions_marshalField(o MarshalOptions, b []byte, fd protore
 // @ site return errors.RequiredNotSet(string(fd.FullName())): !m.Has(fd)
 func contract_checkInitializedSlow(m protoreflect.Message) (err error) {
 	modifiesAll()
+	return
+}
+
+// The element decoders of the reflection path: trusted summaries of their reported lengths.
+//
+// @ trusted
+func contract_UnmarshalOptions_unmarshalList(o UnmarshalOptions, b []byte, wtyp protowire.Type, list protoreflect.List, fd protoreflect.FieldDescriptor) (n int, err error) {
+	modifiesAll()
+	ensuresTrusted(imp(err == nil, 0 <= n && n <= len(b)))
+	return
+}
+
+// @ trusted
+func contract_UnmarshalOptions_unmarshalSingular(o UnmarshalOptions, b []byte, wtyp protowire.Type, m protoreflect.Message, fd protoreflect.FieldDescriptor) (n int, err error) {
+	modifiesAll()
+	ensuresTrusted(imp(err == nil, 0 <= n && n <= len(b)))
 	return
 }
